@@ -521,10 +521,12 @@ private theorem okB_ite {α : Type} (c : Prop) [Decidable c] (r : α) (e : CtorE
     okB (if c then Except.ok r else Except.error e) = decide c := by
   split <;> simp_all [okB]
 
+private theorem dec_beq (a b : Nat) : decide (a = b) = (a == b) := by by_cases h : a = b <;> simp [h]
+
 private theorem classComb_okB (dim : Nat) (mom : Bool) (A : Option AzC) (L : Option (Option LonC)) (T : Option (Option TmpC)) :
     okB (classComb dim mom A L T) = (shapeDim (A.map (·.1)) (L.map (·.map (·.1))) (T.map (·.map (·.1))) == some dim) := by
   rcases A with _ | ⟨az, a1, a2⟩ <;> rcases L with _ | _ | l <;> rcases T with _ | _ | t <;>
-    simp [classComb, shapeDim, okB_ite] <;> (try simp [okB, beq_eq_decide])
+    simp [classComb, shapeDim, okB_ite] <;> first | rfl | exact dec_beq _ _
 
 def azShape : Bool → Bool → Bool → Bool → Option Az
   | true, true, false, false => some .xy
